@@ -20,12 +20,18 @@ from klepto import _inspect as KI  # noqa: E402
 
 
 class Callable(object):
-    def __init__(self, spec, kind, partial=None):
+    def __init__(self, spec, kind, partial=None, wspec=None):
         self.spec, self.kind = spec, kind
         D = dict((n, dec(v)) for n, v in spec['def'])
         D.update((n, dec(v)) for n, has, v in spec['kwonly'] if has)
+        if wspec is not None:
+            for n, v in wspec['def']:
+                D.setdefault(n, dec(v))
+            for n, has, v in wspec['kwonly']:
+                if has:
+                    D.setdefault(n, dec(v))
         self.ns = {'__name__': '__kvstub__', '_CALLS': [], '_D': D}
-        sig = spec_src(spec, self_first=(kind in ('method', 'instance')))
+        sig = spec_src(spec, self_first=(kind in ('method', 'instance', 'classmethod', 'classmethod_via_instance')))
         if kind == 'method':
             src = 'class C(object):\n    def m(%s):\n        _CALLS.append(1)\n' % sig
             exec(src, self.ns)
@@ -34,6 +40,20 @@ class Callable(object):
             src = 'class C(object):\n    def __call__(%s):\n        _CALLS.append(1)\n' % sig
             exec(src, self.ns)
             self.obj = self.ns['C']()
+        elif kind in ('classmethod', 'classmethod_via_instance'):
+            src = 'class C(object):\n    @classmethod\n    def m(%s):\n        _CALLS.append(1)\n' % sig
+            exec(src, self.ns)
+            self.obj = self.ns['C'].m if kind == 'classmethod' else self.ns['C']().m
+        elif kind == 'staticmethod':
+            src = 'class C(object):\n    @staticmethod\n    def m(%s):\n        _CALLS.append(1)\n' % sig
+            exec(src, self.ns)
+            self.obj = self.ns['C']().m
+        elif kind == 'wrapped':
+            # a functools.wraps wrapper: its *own* parameter list decides binding, whatever it wraps
+            src = ('def INNER(%s):\n    _CALLS.append(1)\n'
+                   'def P(%s):\n    _CALLS.append(1)\n' % (spec_src(wspec), sig))
+            exec(src, self.ns)
+            self.obj = functools.wraps(self.ns['INNER'])(self.ns['P'])
         else:
             src = 'def P(%s):\n    _CALLS.append(1)\n' % sig
             exec(src, self.ns)
@@ -43,6 +63,12 @@ class Callable(object):
             self.pa = tuple(dec(partial['args']))
             self.pk = dec(partial['kwds'])
             self.obj = functools.partial(self.obj, *self.pa, **self.pk)
+            if partial.get('outer'):
+                # a partial of a partial (functools flattens it; the fixed arguments accumulate)
+                oa, ok = tuple(dec(partial['outer']['args'])), dec(partial['outer']['kwds'])
+                self.obj = functools.partial(self.obj, *oa, **ok)
+                self.pa = self.pa + oa
+                self.pk = dict(self.pk, **ok)
 
     @property
     def calls(self):
@@ -61,7 +87,7 @@ class Callable(object):
 
     def bind(self, args, kwds):
         try:
-            inspect.signature(self.obj).bind(*args, **kwds)
+            inspect.signature(self.obj, follow_wrapped=False).bind(*args, **kwds)
             return True
         except (TypeError, ValueError):   # ValueError: a partial that can never be called
             return False
@@ -72,8 +98,13 @@ VALS = [1, 'a', None, 2.5, (1, 2)]
 
 def gen_case(rng, prop='C19'):
     spec = gen_spec(rng)
-    kind = rng.choice(['func', 'func', 'method', 'instance', 'func'])
+    kind = rng.choice(['func', 'func', 'method', 'instance', 'func', 'func', 'method', 'instance',
+                       'classmethod', 'classmethod_via_instance', 'staticmethod', 'wrapped'])
     case = {'spec': spec, 'kind': kind, 'seed': rng.randrange(1 << 30)}
+    if kind == 'wrapped':
+        case['wspec'] = gen_spec(rng)
+        if rng.random() < 0.5:     # the classic decorator shape: (*args, **kwargs) or (*args) around anything
+            case['spec'] = spec = {'req': [], 'def': [], 'var': True, 'kwonly': [], 'kw': rng.random() < 0.6}
     names = spec_names(spec)
     if rng.random() < 0.4:
         npos = rng.randint(0, min(len(names) + 1, 5))     # up to one positional too many
@@ -85,6 +116,9 @@ def gen_case(rng, prop='C19'):
         if rng.random() < 0.1:
             pk['bogus'] = 1
         case['partial'] = {'args': enc(pa), 'kwds': enc(pk)}
+        if rng.random() < 0.15:
+            case['partial']['outer'] = {'args': enc([rng.choice(VALS) for _ in range(rng.randint(0, 2))]),
+                                        'kwds': enc(dict((n, rng.choice(VALS)) for n in names if rng.random() < 0.2))}
     return case
 
 
@@ -109,7 +143,7 @@ def mechs(case, tgt, args, kwds):
     signature() pairs the fixed values with a parameter list that still contains 'self' (shifted by
     one), so a clash between a positionally fixed parameter and a keyword goes unnoticed.  The
     witness must show exactly that: Python rejects the call with "multiple values for argument"."""
-    if case['kind'] in ('method', 'instance') and tgt.pa:
+    if case['kind'] in ('method', 'instance', 'classmethod', 'classmethod_via_instance') and tgt.pa:
         try:
             tgt.obj(*args, **kwds)
         except TypeError as e:
@@ -127,7 +161,7 @@ def run_case(case, prop='C19'):
     def note(c, n=1):
         cnt[c] = cnt.get(c, 0) + n
     try:
-        tgt = Callable(case['spec'], case['kind'], case.get('partial'))
+        tgt = Callable(case['spec'], case['kind'], case.get('partial'), case.get('wspec'))
     except Exception as e:
         return viol, cnt, False
     nontrivial = False
@@ -135,8 +169,21 @@ def run_case(case, prop='C19'):
     for args, kwds in gen_calls(rng, case['spec']):
         real = tgt.real(args, kwds)
         if tgt.bind(args, kwds) != real:
-            note('oracle_disagreement_dropped')
-            continue
+            # known quirk of the second oracle: inspect.signature() of a partial whose target takes **kw drops the
+            # positionally fixed parameters from the signature, so a keyword naming one of them lands in **kw and
+            # bind() accepts a call that Python rejects with "multiple values for argument".  The actual call is
+            # the ground truth there; any other disagreement drops the case.
+            quirk = False
+            if not real and isinstance(tgt.obj, functools.partial):
+                try:
+                    tgt.obj(*args, **kwds)
+                except TypeError as e:
+                    quirk = 'multiple values' in str(e)
+                del tgt.calls[:]
+            if not quirk:
+                note('oracle_disagreement_dropped')
+                continue
+            note('oracle_bind_quirk_resolved_by_actual_call')
         n0 = len(tgt.calls)
         try:
             got = KI.isvalid(tgt.obj, *args, **kwds)
